@@ -305,8 +305,11 @@ def run_scenario(kind, full, seed, index, max_delay, patch_name=None):
                 b = rng.choice(bearers)
                 if b not in stuck:  # one request at a time: never after a request that is still unanswered
                     mark = len(rig.log)
+                    # (incl. CCCD writes while an indication may be in flight: subscribing / unsubscribing is not a confirmation)
                     rig.send(b, rng.choice([b"\x0a" + A.H(db.h["long"]), b"\x0e" + A.H(db.h["small"]) * 2, b"\x04" + A.H(1) + A.H(0xFFFF),
-                                            b"\x52" + A.H(db.h["small"]) + b"z"]))
+                                            b"\x52" + A.H(db.h["small"]) + b"z",
+                                            b"\x12" + A.H(db.h["cccd"]) + bytes([rng.choice([1, 3, 3, 2]), 0]),
+                                            b"\x12" + A.H(db.h["cccd"]) + bytes([rng.choice([1, 3]), 0])]))
                     rig.run(1.0)
                     sent = rig.log[mark][3]
                     if A.classify(sent[0]) in ("req", "unkreq") and not any(
